@@ -219,6 +219,55 @@ func ruleC13NoDrop(cx *Ctx) {
 		return
 	}
 	_ = de
+	// census, independent of the path bound (a cut-off that needs a thousand iterations is on no enumerated path):
+	// the sweep function and the helpers only it uses set a link to nil or to the node itself, nothing else
+	{
+		mine := map[*ssa.Function]bool{origin(entry): true}
+		addReach := map[*ssa.Function]bool{}
+		var mark func(f *ssa.Function, into map[*ssa.Function]bool)
+		mark = func(f *ssa.Function, into map[*ssa.Function]bool) {
+			f = origin(f)
+			if f == nil || into[f] || f.Pkg == nil || !strings.HasSuffix(f.Pkg.Pkg.Path(), expPkg) {
+				return
+			}
+			into[f] = true
+			withClosures(f, func(g *ssa.Function) {
+				allInstrs(g, func(in ssa.Instruction) {
+					if c := calleeOf(in); c != nil {
+						mark(c, into)
+					}
+				})
+			})
+		}
+		mark(add, addReach)
+		if del := cx.P.Func(expPkg, "Variable", "Delete"); del != nil {
+			mark(del, addReach)
+		}
+		var grow func(f *ssa.Function)
+		grow = func(f *ssa.Function) {
+			withClosures(f, func(g *ssa.Function) {
+				allInstrs(g, func(in ssa.Instruction) {
+					if c := calleeOf(in); c != nil && c.Pkg != nil && strings.HasSuffix(c.Pkg.Pkg.Path(), expPkg) && !addReach[origin(c)] && !mine[origin(c)] {
+						mine[origin(c)] = true
+						grow(origin(c))
+					}
+				})
+			})
+		}
+		grow(entry)
+		for f := range mine {
+			withClosures(f, func(g *ssa.Function) {
+				allInstrs(g, func(in ssa.Instruction) {
+					c, ok := in.(*ssa.Call)
+					if !ok || (invokeName(c) != "SetNextExp" && invokeName(c) != "SetPrevExp") {
+						return
+					}
+					arg := c.Call.Args[0]
+					cx.R.Check(isNilConst(arg) || arg == c.Call.Value, rule, funcName(g), "sweep writes links only to detach", cx.P.where(in), "inside the sweep a link is set to nil (timer unlinked) or to the node itself (sentinel reset); every relinking goes through Add - a chain spliced back by hand overwrites what Add linked into the bucket meanwhile")
+				})
+			})
+		}
+	}
 	outs := ps.Run(entry, nil)
 	cx.R.AddInt("paths_enumerated", len(outs))
 	if ps.capped {
@@ -240,6 +289,14 @@ func ruleC13NoDrop(cx *Ctx) {
 		for _, e := range o.S.trace {
 			if e.Kind == "FieldStore" && e.Args[0] == recv+"."+fname(timeF) {
 				timeVal = e.Args[1]
+			}
+		}
+		// the sweep itself writes links only to detach: a bucket's sentinel is reset to point at itself, a timer's links
+		// are cleared; every re-linking goes through Add (summarised here) - a chain spliced back by hand overwrites
+		// whatever Add linked into the bucket meanwhile
+		for _, e := range o.S.trace {
+			if e.Kind == "NodeLink" && len(e.Args) >= 3 && (e.Args[1] == "SetNextExp" || e.Args[1] == "SetPrevExp") {
+				a.check("sweep writes links only to detach", e.Args[2] == "nil" || e.Args[2] == e.Args[0], "inside the sweep a link is set to nil (timer unlinked) or to the node itself (sentinel reset); relinking is Add's job", fmt.Sprintf("%s.%s(%s)", e.Args[0], e.Args[1], e.Args[2]), o)
 			}
 		}
 		unlinked := map[string]int{} // node -> index of its unlinking
